@@ -28,11 +28,22 @@ def require_edges(edges, module):
         raise MachineryError("vacuous model %s: transitions never generated: %s" % (module, missing))
 
 
+def count_via(path):
+    """Executions per path (Reset events carry via = policy | handler)."""
+    n = {"policy": 0, "handler": 0}
+    with open(path, "rb") as f:
+        for ln in f:
+            if ln.startswith(b'{"e":"Reset"'):
+                n["handler" if b'"via":"handler"' in ln else "policy"] += 1
+    return n
+
+
 def run(tier):
     c = Check("C15", tier)
     spec = os.path.join(ROOT, "specs", "logrolling")
     exe = build_driver("logrolling", os.path.join(ROOT, "harness", "logrolling_driver.cpp"), "asan",
-                       lib_subdirs=("log/files", "log/filename", "common"))
+                       lib_subdirs=("log", "common", "format", "prog_args", "appl"),
+                       libs=("-lboost_system", "-lboost_filesystem"))
     # M: the as-built choices (edges are replayed) ...
     must = ["MCOpenBegin", "MCRollStep", "MCWriteBegin", "MCClose"] + (["MCCrash"] if tier == "thorough" else [])
     r, edges = c.model(spec, "MCLogRolling", "MCLogRolling_%s.cfg" % tier, must_take=must)
@@ -45,24 +56,34 @@ def run(tier):
     seqs, nedges, nstates, unreach = cover(edges)
     c.notes.append("LogRolling: %d distinct edges over %d states (up to message ids) covered by %d replay sequences"
                    % (nedges, nstates, len(seqs)))
-    nparts = max(1, min(NCPU, len(seqs) // 2000 + 1))
-    total = sum(len(q) + 1 for q in seqs)
-    parts, acc = [[] for _ in range(nparts)], 0
-    for q in seqs:
-        parts[min(nparts - 1, acc * nparts // max(total, 1))].append(q)
-        acc += len(q) + 1
-    parts = [q for q in parts if q]
+    # quick: the sequences alternate between the policy called directly and the path Logging::log -> Log ->
+    # files::Handler<Policy> -> policy (which half depends on the seed); thorough: every sequence through the
+    # Handler path and additionally every 4th sequence on the policy directly
+    phase = SEED & 1
+    if tier == "quick":
+        passes = [(seqs, "alt")]
+    else:
+        passes = [(seqs, "handler"), (seqs[phase::4], "policy")]
+    parts = []
+    for pseqs, via in passes:
+        nparts = max(1, min(NCPU, len(pseqs) // 2000 + 1))
+        total = sum(len(q) + 1 for q in pseqs)
+        chunk, acc = [[] for _ in range(nparts)], 0
+        for q in pseqs:
+            chunk[min(nparts - 1, acc * nparts // max(total, 1))].append(q)
+            acc += len(q) + 1
+        parts += [(q, via) for q in chunk if q]
 
     def replay(i):
         script = os.path.join(c.wd, "script_%d.ndjson" % i)
-        write_script(parts[i], script)
+        write_script(parts[i][0], script)
         tr = os.path.join(c.wd, "replay_%d.ndjson" % i)
         d = scratch("R%d" % i)
-        c.drive(exe, ["--dir", d, "--script", script], tr, "R", timeout=1200)
+        c.drive(exe, ["--dir", d, "--via", parts[i][1], "--phase", phase, "--script", script], tr, "R", timeout=1200)
         shutil.rmtree(d, ignore_errors=True)
         os.remove(script)
         return tr
-    with concurrent.futures.ThreadPoolExecutor(len(parts)) as ex:
+    with concurrent.futures.ThreadPoolExecutor(NCPU) as ex:
         traces = list(ex.map(replay, range(len(parts))))
     # validate in groups of at most ~1.2 million events (one TLC process per shard inside validate)
     groups, cur, cur_n = [], [], 0
@@ -76,6 +97,7 @@ def run(tier):
         cur_n += n
     if cur:
         groups.append(cur)
+    via = {"policy": 0, "handler": 0}
     for gi, grp in enumerate(groups):
         allp = os.path.join(c.wd, "replay_all_%d.ndjson" % gi)
         with open(allp, "wb") as fo:
@@ -83,15 +105,23 @@ def run(tier):
                 with open(tr, "rb") as f:
                     shutil.copyfileobj(f, fo)
                 os.remove(tr)
+        nv = count_via(allp)
+        via["policy"] += nv["policy"]
+        via["handler"] += nv["handler"]
         c.validate(spec, "TraceLogRolling", "TraceLogRolling.cfg", allp, "R")
         if tier == "thorough" and not c.violations:
             os.remove(allp)          # hundreds of MB; kept only when something was rejected
-    # T: long random histories, larger limits, restarts and rename-level crashes
+    # T: long random histories, larger limits, restarts and rename-level crashes; half of them via the Handler path
     cases = 40 if tier == "quick" else 600
     tr2 = os.path.join(c.wd, "random.ndjson")
     d2 = scratch("T")
-    c.drive(exe, ["--dir", d2, "--random", "--seed", SEED, "--cases", cases, "--ops", 200], tr2, "T", timeout=900)
+    c.drive(exe, ["--dir", d2, "--via", "alt", "--phase", phase, "--random", "--seed", SEED, "--cases", cases, "--ops", 200], tr2, "T", timeout=900)
     shutil.rmtree(d2, ignore_errors=True)
+    viaT = count_via(tr2)
+    c.notes.append("executions via policy / via Logging->Log->Handler: R %d / %d, T %d / %d"
+                   % (via["policy"], via["handler"], viaT["policy"], viaT["handler"]))
+    if not c.violations and min(via["policy"], via["handler"], viaT["policy"], viaT["handler"]) == 0:
+        raise MachineryError("vacuous replay: no execution through the %s path" % ("Handler" if via["handler"] * viaT["handler"] == 0 else "policy"))
     c.validate(spec, "TraceLogRolling", "TraceLogRolling.cfg", tr2, "T")
     c.exhaustive = True
     c.assumptions = ["a process death is modelled at the points where the log file is closed (between the renames of a "
